@@ -252,6 +252,9 @@ class C01(core.Property):
     tags = [f'backend={case["backend"]}', f'copt={case["copt"][0]}', f'sopt={case["sopt"][0]}',
             f'rounds={len(case["rounds"])}', f'epochs={case["epochs"]}', f'steps={case["steps"]}',
             f'nan_on_padding_batch={bool(case.get("nanpad"))}']
+    if any(len({c['id'] for c in co}) != len(co) for co in case['rounds']):
+      # the property speaks about a SET of sampled clients: a cohort listing one id twice is outside its domain
+      return Outcome(nontrivial=False, tags=('out-of-domain: repeated client id',))
     has_empty = any(len(c['y']) == 0 for co in case['rounds'] for c in co)
     all_empty_round = any(co and all(len(c['y']) == 0 for c in co) for co in case['rounds'])
     tags.append(f'empty_client={has_empty}')
